@@ -287,7 +287,9 @@ inline XInst instantiate(const xdb::Form& f, int mode, Choices& c, bool allow_op
       bool is_si = d.memRegOnly.find("si") != std::string::npos;
       bool is_bx = d.memRegOnly.find("bx") != std::string::npos;
       int id = is_si ? 6 : is_bx ? 3 : 7;
+      bool any_base = d.memRegOnly.size() >= 2 && d.memRegOnly[0] == 'r' && isdigit((unsigned char)d.memRegOnly[1]);      // enqcmd/movdir64b: es:[any GP register]
       int sel = c.pick(8);
+      if (any_base) id = c.pick(mode == 64 ? 16 : 8);
       if (str_addr_bits) sel = (str_addr_bits == (mode == 64 ? 32 : 16)) ? 0 : 1;      // all string operands share one address size
       if (mode == 64) { m.base.rc = sel == 0 ? RC::Gp32 : RC::Gp64; m.addr_bits = sel == 0 ? 32 : 64; }
       else { m.base.rc = sel == 0 ? RC::Gp16 : RC::Gp32; m.addr_bits = sel == 0 ? 16 : 32; }
